@@ -207,6 +207,14 @@ func c05Shapes(ai int, a c05Alias) []c05Shape {
 		out = append(out, c05Shape{fields: base, where: w, alias: ai})
 	}
 	w0 := a.wheres[0]
+	if !a.keyed {
+		// a non-alias conjunct on the LEFT that rejects the same rows: whole
+		// filter chunks can be decided before the alias is ever evaluated
+		for _, w := range uses {
+			out = append(out, c05Shape{fields: base, where: ref.Bin("&", ref.Bin("!=", ref.Value(), ref.S(a.lo)), w.Clone()), alias: ai})
+		}
+		out = append(out, c05Shape{fields: base, where: ref.Bin("|", ref.Bin("=", ref.Value(), ref.S(a.hi)), w0.Clone()), alias: ai})
+	}
 	for _, l := range a.later {
 		out = append(out, c05Shape{fields: append(append([]c05Field(nil), base...), c05Field{l, "z"}), where: w0, alias: ai})
 		out = append(out, c05Shape{fields: append(append([]c05Field(nil), base...), c05Field{l, ""}), where: ref.Bl(true), alias: ai})
